@@ -199,6 +199,8 @@ def mutants(sp, doc):
             for j in ("abc", [], {}, None, ""):
                 out.append(("count:retype", path, _set(doc, path, j)))
             out.append(("entries:-1", path, _set(doc, path, -1)))
+            for j, nm in ((-0.5, "negative-float"), (-1e-300, "negative-tiny"), ("-inf", "minus-infinity-spelled")):
+                out.append(("entries:" + nm, path, _set(doc, path, j)))
         elif role == "struct":
             for key in REQ[info]:
                 out.append(("struct:delete-key", path + [key], _del(doc, path + [key])))
@@ -210,6 +212,8 @@ def mutants(sp, doc):
             for j in (3.5, "abc", [], None, 0, ""):
                 out.append(("struct:fragment-retype", path, _set(doc, path, j)))
             out.append(("entries:-1", path + ["entries"], _set(doc, path + ["entries"], -1)))
+            for j, nm in ((-0.5, "negative-float"), (-1e-300, "negative-tiny"), ("-inf", "minus-infinity-spelled")):
+                out.append(("entries:" + nm, path + ["entries"], _set(doc, path + ["entries"], j)))
         elif role == "number":
             for j in JUNK_NUM:
                 out.append(("number:retype", path, _set(doc, path, j)))
@@ -321,7 +325,7 @@ def _role_sig(path):
 
 def conclusive(agg):
     out = []
-    want = ["header:delete-type", "header:version-incompatible", "count:retype", "entries:-1", "struct:delete-key", "struct:add-key", "struct:fragment-retype", "number:retype", "name:retype", "typename:retype", "typename:unregistered", "list:to-dict", "map:to-list", "sparse-key:non-integer", "element:replace", "element:missing-key"]
+    want = ["header:delete-type", "header:version-incompatible", "count:retype", "entries:-1", "entries:negative-float", "entries:negative-tiny", "entries:minus-infinity-spelled", "struct:delete-key", "struct:add-key", "struct:fragment-retype", "number:retype", "name:retype", "typename:retype", "typename:unregistered", "list:to-dict", "map:to-list", "sparse-key:non-integer", "element:replace", "element:missing-key"]
     mk = agg.sets.get("mutation_kinds", set())
     miss = [w for w in want if w not in mk]
     if miss:
